@@ -221,6 +221,19 @@ fn main() {
             let crash_file = format!("{}/.crash-{}", cfg.replay_dir, std::process::id());
             match supervisor::spawn_child(&args, &crash_file, false) {
                 ChildEnd::Exit(c) => std::process::exit(c),
+                ChildEnd::Crash { run, ctx, signal } if ctx[0] == runner::MINIMISING && run != u64::MAX => {
+                    // an ordinary violation had been found; the child died while shrinking it
+                    let path = format!("{}/{}-{}-{}.json", cfg.replay_dir, id, cfg.seed, run);
+                    println!(
+                        "the child ended with signal {signal} while minimising the violation of run {run}; reporting the un-minimised trace"
+                    );
+                    if std::path::Path::new(&path).exists() {
+                        println!("VIOLATION property={id} replay={path}");
+                        std::process::exit(1);
+                    }
+                    eprintln!("harness error: un-minimised replay file {path} is missing");
+                    std::process::exit(2);
+                }
                 ChildEnd::Crash { mut signal, mut run, mut ctx } => {
                     // which run crashed first depends on thread timing; make the report
                     // deterministic: re-run only the runs below it until none of them crashes
